@@ -12,158 +12,8 @@ use tfm::ligkern::{CompiledProgram, RunItem, RunOptions};
 use tfm::{Char, FixWord};
 use vcore::{catch, Acc, Ctx, Level};
 
-// ------------------------------------------------------------------ the program space
-
-const LETTERS: [u8; 3] = [b'a', b'b', b'c'];
-/// op bytes of the eight ligature forms: =: =:| =:|> |=: |=:> |=:| |=:|> |=:|>>
-const FORMS: [u8; 8] = [0, 1, 5, 2, 6, 3, 7, 11];
-const FORM_NAMES: [&str; 8] = ["LIG", "LIG/", "LIG/>", "/LIG", "/LIG>", "/LIG/", "/LIG/>", "/LIG/>>"];
-/// kern table (fix_words): 0.1 and -0.25 design units; design size 10pt
-const KERNS: [i32; 2] = [104858, -262144];
-const DESIGN_SIZE: i32 = 10 << 20;
-const N_OPS: u64 = 2 + 8 * 3;
-const SIM_BUDGET: usize = 10_000;
-
-/// left: 0 = left boundary, 1 = a, 2 = b; right: 0 = a, 1 = b, 2 = right boundary; op < N_OPS
-#[derive(Clone, Copy, Debug, PartialEq, Eq)]
-struct Rule {
-    left: u8,
-    right: u8,
-    op: u8,
-}
-
-/// One raw instruction + where it is used.
-#[derive(Clone, Copy, Debug, PartialEq, Eq)]
-struct Raw {
-    w: lk::Word,
-}
-
-#[derive(Clone, Debug)]
-struct Prog {
-    words: Vec<lk::Word>,
-    /// (character, index of its first instruction)
-    starts: Vec<(u8, usize)>,
-    lb_start: Option<usize>,
-    rbc: Option<u8>,
-}
-
-fn op_bytes(op: u8) -> (u8, u8) {
-    match op {
-        0 => (128, 0),
-        1 => (128, 1),
-        _ => {
-            let k = op - 2;
-            (FORMS[(k / 3) as usize], LETTERS[(k % 3) as usize])
-        }
-    }
-}
-fn describe_op(op: u8) -> String {
-    match op {
-        0 => "KRN#0".into(),
-        1 => "KRN#1".into(),
-        _ => format!("{} {}", FORM_NAMES[((op - 2) / 3) as usize], LETTERS[((op - 2) % 3) as usize] as char),
-    }
-}
-fn describe_rules(rules: &[Rule], rbc: Option<u8>) -> String {
-    let l = |x: u8| ["|", "a", "b"][x as usize];
-    let r = |x: u8| ["a", "b", "|"][x as usize];
-    let mut s: Vec<String> = rules.iter().map(|q| format!("{}{} -> {}", l(q.left), r(q.right), describe_op(q.op))).collect();
-    s.push(format!("boundarychar={}", rbc.map(|c| (c as char).to_string()).unwrap_or("none".into())));
-    s.join("; ")
-}
-
-fn right_code(r: u8, rbc: Option<u8>) -> Option<u8> {
-    match r {
-        0 => Some(b'a'),
-        1 => Some(b'b'),
-        _ => rbc,
-    }
-}
-
-/// Layouts of the same rules as instruction chains.
-#[derive(Clone, Copy, Debug, PartialEq, Eq)]
-enum Layout {
-    /// one chain per left character, consecutive instructions, STOP on the last
-    Consecutive,
-    /// 300 unreachable instructions in front: every entry point is > 255
-    Padded,
-    /// a foreign (unreachable) instruction after every instruction of a chain, skipped with SKIP 1
-    SkipForeign,
-    /// no STOP between the chains: a chain falls through into the chains laid out after it
-    FallThrough,
-    /// additionally character c enters every chain at its last instruction (shared tail)
-    SharedTail,
-    /// a word with skip byte 255 (unconditional stop / restart word) as *second* word of every
-    /// chain, its next_char equal to that of the instruction it displaces
-    StopWord,
-}
-const LAYOUTS: [Layout; 6] = [Layout::Consecutive, Layout::Padded, Layout::SkipForeign, Layout::FallThrough, Layout::SharedTail, Layout::StopWord];
-
-fn build(rules: &[Rule], rbc: Option<u8>, layout: Layout) -> Option<Prog> {
-    let mut words: Vec<lk::Word> = vec![];
-    let mut starts = vec![];
-    let mut lb_start = None;
-    if layout == Layout::Padded {
-        for i in 0..300u32 {
-            // unreachable ligature instructions that would change every result if they were reached
-            words.push([if i % 7 == 0 { 128 } else { 0 }, LETTERS[(i % 3) as usize], 0, b'c']);
-        }
-    }
-    let mut lefts: Vec<u8> = rules.iter().map(|r| r.left).collect();
-    lefts.sort();
-    lefts.dedup();
-    let n_lefts = lefts.len();
-    for (li, l) in lefts.iter().enumerate() {
-        let start = words.len();
-        match l {
-            0 => lb_start = Some(start),
-            1 => starts.push((b'a', start)),
-            _ => starts.push((b'b', start)),
-        }
-        let rs: Vec<&Rule> = rules.iter().filter(|r| r.left == *l).collect();
-        for (i, r) in rs.iter().enumerate() {
-            let next = right_code(r.right, rbc)?;
-            let (op, rem) = op_bytes(r.op);
-            let last = i + 1 == rs.len();
-            let mut skip = if last { 128 } else { 0 };
-            match layout {
-                Layout::SkipForeign => {
-                    if !last {
-                        skip = 1;
-                    }
-                    words.push([skip, next, op, rem]);
-                    // the foreign instruction: same right character, a different effect
-                    words.push([128, right_code(rs[(i + 1) % rs.len()].right, rbc)?, 0, b'c']);
-                    continue;
-                }
-                Layout::FallThrough => {
-                    if last && li + 1 < n_lefts {
-                        skip = 0;
-                    }
-                }
-                Layout::StopWord => {
-                    words.push([if i == 0 { 0 } else { skip }, next, op, rem]);
-                    if i == 0 {
-                        // displaces the second rule of the chain (or, for a one-rule chain, a pair
-                        // that has no rule): TeX never executes it and stops there (§1039)
-                        let nc = if rs.len() > 1 { right_code(rs[1].right, rbc)? } else { b'b' };
-                        words.push([255, nc, 0, b'c']);
-                    }
-                    continue;
-                }
-                _ => {}
-            }
-            words.push([skip, next, op, rem]);
-        }
-        if layout == Layout::SharedTail {
-            // c shares the tail of the first chain only (one entry point per character)
-            if li == 0 {
-                starts.push((b'c', words.len() - 1));
-            }
-        }
-    }
-    Some(Prog { words, starts, lb_start, rbc })
-}
+mod gen;
+use gen::*;
 
 fn model_font(p: &Prog) -> Font {
     Font::new(p.words.clone(), &p.starts, p.rbc, p.lb_start)
@@ -207,64 +57,6 @@ fn to_program(p: &Prog) -> (Program, HashMap<Char, u16>, Vec<FixWord>) {
     let eps = p.starts.iter().map(|(c, s)| (Char(*c), *s as u16)).collect();
     let prog = Program { instructions, left_boundary_char_entrypoint: p.lb_start.map(|s| s as u16), right_boundary_char: p.rbc.map(Char), passthrough: Default::default() };
     (prog, eps, KERNS.iter().map(|k| FixWord(*k)).collect())
-}
-
-// ------------------------------------------------------------------ enumeration of rule sets
-
-struct Space {
-    /// combos[k] = all k-subsets of the 9 (left,right) slots in lexicographic order
-    combos: Vec<Vec<Vec<u8>>>,
-    /// offsets[k] = index of the first set with k rules
-    offsets: Vec<u64>,
-    max_rules: usize,
-}
-impl Space {
-    fn new(max_rules: usize) -> Space {
-        let mut combos = vec![];
-        for k in 0..=max_rules {
-            let mut v = vec![];
-            fn rec(start: u8, k: usize, cur: &mut Vec<u8>, out: &mut Vec<Vec<u8>>) {
-                if cur.len() == k {
-                    out.push(cur.clone());
-                    return;
-                }
-                for s in start..9 {
-                    cur.push(s);
-                    rec(s + 1, k, cur, out);
-                    cur.pop();
-                }
-            }
-            rec(0, k, &mut vec![], &mut v);
-            combos.push(v);
-        }
-        let mut offsets = vec![0u64];
-        for k in 0..=max_rules {
-            let n = combos[k].len() as u64 * N_OPS.pow(k as u32);
-            offsets.push(offsets[k] + n);
-        }
-        Space { combos, offsets, max_rules }
-    }
-    fn len(&self) -> u64 {
-        self.offsets[self.max_rules + 1]
-    }
-    fn rules(&self, idx: u64) -> Vec<Rule> {
-        let k = (0..=self.max_rules).find(|k| idx < self.offsets[k + 1]).expect("index in range");
-        let r = idx - self.offsets[k];
-        let nops = N_OPS.pow(k as u32);
-        let combo = &self.combos[k][(r / nops) as usize];
-        let ops = vcore::digits(r % nops, &vec![N_OPS; k]);
-        combo.iter().zip(ops).map(|(slot, op)| Rule { left: slot / 3, right: slot % 3, op: op as u8 }).collect()
-    }
-}
-
-fn words_upto(maxlen: usize) -> Vec<Vec<u8>> {
-    let mut out = vec![];
-    for len in 1..=maxlen {
-        for i in 0..(1u32 << len) {
-            out.push((0..len).map(|j| if (i >> (len - 1 - j)) & 1 == 0 { b'a' } else { b'b' }).collect());
-        }
-    }
-    out
 }
 
 /// (left boundary enabled, right_boundary_override)
@@ -352,12 +144,13 @@ fn case_json(rules: &[Rule], rbc: Option<u8>, layout: Layout, extra: Value) -> V
 }
 
 /// Check one program (loop verdict) and, if it is loop-free, every word in every mode.
-fn check_program(idx: u64, rules: &[Rule], rbc: Option<u8>, layout: Layout, words: &[Vec<u8>], only: Option<(&[u8], bool, Option<u8>)>, acc: &mut Acc, sh: &Shared) {
+fn check_program(idx: u64, rules: &[Rule], rbc: Option<u8>, layout: Layout, words: &[Vec<u8>], only: Option<(&[u8], bool, Option<u8>)>, acc: &mut Acc, sh: &Shared, phantom: bool) {
     let Some(p) = build(rules, rbc, layout) else {
         acc.skipped += 1; // a right-boundary rule without a boundary character cannot be written down
         return;
     };
-    let font = model_font(&p);
+    let mut font = model_font(&p);
+    font.exec_stop_words = phantom;
     // ---- oracle: loops
     let knuth = lk::knuth_loop(&font);
     let sim = lk::looping_pairs(&font, SIM_BUDGET);
@@ -491,6 +284,33 @@ fn check_program(idx: u64, rules: &[Rule], rbc: Option<u8>, layout: Layout, word
             acc.class("ligature reported as character");
             continue;
         }
+        // spelling with the boundaries as pseudo-characters (what \showbox prints inside "(ligature ...)"):
+        // insensitive to how originals are distributed over nodes, sensitive to a boundary that is
+        // recorded although it took no part in a ligature, or not recorded although it did
+        let marked = |n: &[Node]| -> String {
+            let mut s = String::new();
+            for x in n {
+                match x {
+                    Node::Char(c) => s.push(*c as char),
+                    Node::Lig { orig, left, right, .. } => {
+                        if *left {
+                            s.push('|');
+                        }
+                        s.push_str(&String::from_utf8_lossy(orig));
+                        if *right {
+                            s.push('|');
+                        }
+                    }
+                    Node::Kern(_) => {}
+                }
+            }
+            s
+        };
+        if marked(&m.nodes) != marked(&got.nodes) {
+            acc.fail(idx, case(), format!("{} (spelling with boundaries: {})", render_nodes(&m.nodes), marked(&m.nodes)), format!("{} (spelling with boundaries: {})", render_nodes(&got.nodes), marked(&got.nodes)), "ligature boundary flags differ from direct interpretation");
+            acc.class("boundary flags differ");
+            continue;
+        }
         // informational: exact agreement with TeX's node bookkeeping (originals per node, boundary flags)
         let same_nodes = m.nodes.len() == got.nodes.len()
             && m.nodes.iter().zip(got.nodes.iter()).all(|(a, b)| match (a, b) {
@@ -499,6 +319,9 @@ fn check_program(idx: u64, rules: &[Rule], rbc: Option<u8>, layout: Layout, word
             });
         if same_nodes {
             acc.class(&format!("agree, nodes identical to TeX's, {} command(s)", m.fired.len().min(6)));
+            if m.fired.len() >= 3 {
+                acc.sample(idx, || json!({"program": describe_rules(rules, rbc), "layout": format!("{layout:?}"), "word": String::from_utf8_lossy(w), "left_boundary": lb, "right_boundary_override": ovr.map(|c| (c as char).to_string()), "result": render_nodes(&got.nodes), "commands_fired": m.fired.len()}));
+            }
         } else {
             acc.count("info_node_bookkeeping_differs_from_tex");
             let flags_only = m.nodes.len() == got.nodes.len()
@@ -510,6 +333,42 @@ fn check_program(idx: u64, rules: &[Rule], rbc: Option<u8>, layout: Layout, word
             acc.class(if flags_only { "agree, boundary flags placed differently from TeX" } else { "agree, originals distributed differently from TeX" });
             acc.sample(idx, || json!({"bookkeeping_difference": {"case": case(), "tex": render_nodes(&m.nodes), "crate": render_nodes(&got.nodes)}}));
         }
+    }
+}
+
+/// Programs with an unconditional-stop word inside a chain. Expectation: TeX (the word is never
+/// executed). If that fails, the case is compared with the adjusted expectation "the stop word is
+/// executed as the ligature/kern command its op and remainder bytes spell" (what TFtoPL §91 enters
+/// into its loop-check table, and what compiler.rs reimplements): agreement = finding class D23.
+fn check_stop_word_program(idx: u64, rules: &[Rule], rbc: Option<u8>, words: &[Vec<u8>], only: Option<(&[u8], bool, Option<u8>)>, acc: &mut Acc, sh: &Shared) {
+    let mut tex = Acc::default();
+    check_program(idx, rules, rbc, Layout::StopWord, words, only, &mut tex, sh, false);
+    if tex.fail_count == 0 {
+        acc.merge(tex);
+        return;
+    }
+    let mut adj = Acc::default();
+    check_program(idx, rules, rbc, Layout::StopWord, words, only, &mut adj, sh, true);
+    if adj.fail_count == 0 {
+        let n = tex.fail_count;
+        let first = tex.fails[0].clone();
+        // keep the counts of the TeX-expectation run, drop its failures
+        tex.fails.clear();
+        tex.fail_count = 0;
+        tex.classes.clear();
+        tex.class("differs from TeX, equals TFtoPL's phantom reading of the stop word (D23)");
+        acc.merge(tex);
+        let e = acc.known.entry("D23".into()).or_insert((0, u64::MAX, Value::Null));
+        e.0 += n;
+        if idx < e.1 {
+            e.1 = idx;
+            let mut w = first.case.clone();
+            w["expected_tex"] = json!(first.expected);
+            w["observed"] = json!(first.observed);
+            e.2 = w;
+        }
+    } else {
+        acc.merge(tex);
     }
 }
 
@@ -624,14 +483,18 @@ const TEX_RECORDED: &[(&str, &str, &str, &str)] = &[
     ("right_boundary_char_kern_3", "L A; LIG B C; L C; K R 0; S", "AB", "C(AB) k0"),
 ];
 
-/// Loop verdicts recorded from Knuth's programs: tftopl.web §88 examples and the repository's
-/// compiler.rs infinite-loop tests. (name, program, loops?)
+/// Loop verdicts. The first five are recorded from Knuth's TFtoPL in the repository's corpus
+/// (crates/tfm/corpus/originals/<name>.plst + .stderr.txt, used by tfm-bin/tests/convert.rs); the
+/// others are derived by hand from the definition in tftopl.web §88. (name, program, loops?)
 const LOOP_RECORDED: &[(&str, &str, bool)] = &[
-    // mod.rs module documentation / TFtoPL §88: (x,y) -> (z,y) -> (x,y)
+    ("left-boundary-char-infinite-loop", "L |; /LIG P Q; /LIG Q P; S", true),
+    ("right-boundary-char-creates-infinite-loop-a", "L Q; LIG B P; /LIG/ P P; S", true),
+    ("right-boundary-char-breaks-infinite-loop-a", "L Q; /LIG/ R P; S", false),
+    ("infinite-loop-error-ordering-a", "L A; L B; LIG/ C B; S", true),
+    ("infinite-loop-error-ordering-d", "L A; L B; L C; LIG/ D C; S", true),
+    // ligkern/mod.rs module documentation: (x,y) -> (z,y) -> (x,y)
     ("doc_swap", "L x; LIG/ y z; S; L z; LIG/ y x; S", true),
-    // tftopl.web §88: "LIG/ x y x" style self loop: (A,B) /LIG/ inserting A keeps producing (A,A)?..
     ("self_both", "L A; /LIG/ A A; S", true),
-    ("self_left_z", "L A; LIG/ B A; S", true),
     ("self_right_z", "L A; /LIG B B; S", true),
     ("move_right_ok", "L A; /LIG/>> A A; S", false),
     ("lig_ok", "L A; LIG A A; S", false),
@@ -666,7 +529,7 @@ fn rbc_of(i: u64) -> Option<u8> {
 fn main() {
     let mut ctx = Ctx::new("C05", Level::Exploration);
     ctx.assume("every character of the alphabet exists in the font (no char_warning path; false_bchar = non_char, TeX §576)");
-    ctx.assume("how TeX distributes a ligature's original characters and boundary flags over several ligature nodes is not compared (node bookkeeping; only: same glyphs and kerns in the same order, recorded characters spell the word, and a glyph TeX holds in a ligature node is reported as a ligature); exact node agreement is counted as an outcome class");
+    ctx.assume("how TeX distributes a ligature's original characters and boundary flags over several ligature nodes is not compared node by node (node bookkeeping); compared are: the glyphs and kerns in order, that a glyph TeX holds in a ligature node is reported as a ligature, and the spelling of the word by plain characters and ligature originals with the two boundaries as pseudo-characters (a boundary flag is set iff TeX set it, in the same place of the spelling); exact node agreement is counted as an outcome class");
     ctx.assume("kern amounts are compared after scaling by the design size with TeX §571-572 store_scaled");
     ctx.assume("words are run only on programs without an infinite loop; for looping programs the loop verdict and the reported pairs are checked");
     self_validate(&mut ctx);
@@ -674,7 +537,7 @@ fn main() {
     let max_rules = ctx.pick(2usize, 3usize);
     let space = Space::new(max_rules);
     let space2 = Space::new(2);
-    let words = words_upto(ctx.pick(4, 5));
+    let words = words_upto(5);
     let words_short = words_upto(4);
 
     if let Some((_fam, case)) = ctx.replay_case() {
@@ -684,7 +547,11 @@ fn main() {
         let layout = LAYOUTS[case["layout"].as_u64().unwrap_or(0) as usize];
         let word: Vec<u8> = case["word"].as_str().unwrap_or("").as_bytes().to_vec();
         let only = if case["kind"] == "run" { Some((word.as_slice(), case["lb"].as_bool().unwrap_or(true), case["override"].as_u64().map(|c| c as u8))) } else { None };
-        check_program(0, &rules, rbc, layout, &words, only, &mut acc, &sh);
+        if layout == Layout::StopWord {
+            check_stop_word_program(0, &rules, rbc, &words_short, only, &mut acc, &sh);
+        } else {
+            check_program(0, &rules, rbc, layout, &words, only, &mut acc, &sh, false);
+        }
         for m in sh.machinery.lock().unwrap().iter() {
             eprintln!("MACHINERY-ERROR C05: {m}");
         }
@@ -704,23 +571,24 @@ fn main() {
             n,
             |i, acc| {
                 let rules = sp.rules(i / 3);
-                check_program(i, &rules, rbc_of(i % 3), Layout::Consecutive, w, None, acc, shr);
+                check_program(i, &rules, rbc_of(i % 3), Layout::Consecutive, w, None, acc, shr, false);
             },
         );
     }
     // F2: the same rule sets (<= 2 rules) in the other chain layouts, except the stop word
     {
         let nl = 4u64; // Padded, SkipForeign, FallThrough, SharedTail
-        let n = space2.len() * 3 * nl;
-        let (sp, w, shr) = (&space2, &words_short, &sh);
+        let n = space.len() * 3 * nl;
+        let words_f2 = words_upto(ctx.pick(4, 3));
+        let (sp, w, shr) = (&space, &words_f2, &sh);
         ctx.family(
             "programs-layouts",
-            "every set of <= 2 rules x boundarychar x 4 chain layouts (300 unreachable instructions in front so that entry points exceed 255; SKIP 1 over a foreign instruction; chains falling through into the next chain; character c entering a chain at its last instruction) x every word of length 1..4 x 3 modes",
+            &format!("every set of <= {max_rules} rules x boundarychar x 4 chain layouts (300 unreachable instructions in front so that entry points exceed 255; SKIP 1 over a foreign instruction; chains falling through into the next chain; character c entering a chain at its last instruction) x every word of length 1..{} x 3 modes", ctx.pick(4, 3)),
             n,
             |i, acc| {
                 let d = vcore::digits(i, &[sp.len(), 3, nl]);
                 let rules = sp.rules(d[0]);
-                check_program(i, &rules, rbc_of(d[1]), LAYOUTS[1 + d[2] as usize], w, None, acc, shr);
+                check_program(i, &rules, rbc_of(d[1]), LAYOUTS[1 + d[2] as usize], w, None, acc, shr, false);
             },
         );
     }
@@ -740,7 +608,7 @@ fn main() {
                     return;
                 }
                 acc.count("stop_word_in_chain");
-                check_program(i, &rules, rbc_of(i % 3), Layout::StopWord, w, None, acc, shr);
+                check_stop_word_program(i, &rules, rbc_of(i % 3), w, None, acc, shr);
             },
         );
     }
